@@ -38,6 +38,7 @@ class PybindWrapper:
         self.use_boost_serialization = use_boost_serialization
         self.ignore_classes = ignore_classes
         self._serializing_classes = []
+        self._declared_submodules: List[str] = []
         self.module_template = module_template
         self.python_keywords = [
             'lambda', 'False', 'def', 'if', 'raise', 'None', 'del', 'import',
@@ -629,7 +630,11 @@ class PybindWrapper:
         else:
             module_var = self._gen_module_var(namespaces)
 
-            if len(namespaces) > len(self.top_module_namespaces):
+            if len(namespaces) > len(self.top_module_namespaces) and \
+                    module_var not in self._declared_submodules:
+                # A namespace can be opened more than once in a file:
+                # its submodule is declared only the first time.
+                self._declared_submodules.append(module_var)
                 wrapped += (
                     ' ' * 4 + 'pybind11::module {module_var} = '
                     '{parent_module_var}.def_submodule("{namespace}", "'
@@ -697,6 +702,9 @@ class PybindWrapper:
             module_name: The name of the module.
             submodules: List of other interface file names that should be linked to.
         """
+        # The submodules declared so far in this translation unit
+        self._declared_submodules = []
+
         # Parse the contents of the interface file
         module = parser.Module.parseString(content)
         # Instantiate all templates
